@@ -20,6 +20,9 @@ var verifDistQueries = []string{
 	`group(foo)`,
 	`count(foo) + 1`,
 	`count by (b) (foo)`,
+	`avg(foo)`,
+	`stddev(foo)`,
+	`quantile(0.5, foo)`,
 	`count without (b) (foo)`,
 	`min without (a) (foo)`,
 	`group without (a, b) (foo)`,
@@ -70,7 +73,7 @@ func verifSameMatrix(site string, a, b *promql.Result, knownID string, region bo
 // VerifH10p: a query through the distributed engine over disjoint partitions returns
 // what one engine returns over the union (whole pipeline on both sides, symbolic data).
 func VerifH10p() {
-	qs := verifDistQueries[sym.Choice("query", sym.Tier(9, len(verifDistQueries)))]
+	qs := verifDistQueries[sym.Choice("query", sym.Tier(12, len(verifDistQueries)))]
 	start := sym.Int64("start", 0, verifR)
 	step := sym.Int64("step", 1, verifR)
 	lookback := sym.Int64("lookback", 1, verifR)
@@ -88,6 +91,11 @@ func VerifH10p() {
 	for k, l := range lbls {
 		n := 1
 		s := stub.SymSeries("s"+stub.Itoa(k), n, verifR)
+		if qs == `avg(foo)` || qs == `stddev(foo)` {
+			// order-sensitive float algorithms: pin the sample values (timestamps stay
+			// symbolic) so that both sides are compared on exact numbers
+			s[0].V = float64(k+1) * 1.5
+		}
 		// D16 region for this series: selected at step 0, expired at step 1 centrally,
 		// but the remote result's point at step 0 is still within lookback of step 1
 		t := s[0].T
